@@ -1,5 +1,6 @@
 pub mod flat;
 pub mod lat;
+pub mod mc;
 pub mod rep;
 
 pub use rep::{h64, hmix, Acc, Report};
